@@ -35,14 +35,18 @@ const (
 	optCodecs
 	optNeighbours
 	optServesJSON
+	optLazyMultipart
+	optReduceMemory
+	optNoHeaderNormalizing
 	flvPlain flavor = 0
-	flvAll   flavor = optValidator | optImmutable | optStream | optCodecs | optNeighbours | optServesJSON
+	flvAll   flavor = optValidator | optImmutable | optStream | optCodecs | optNeighbours | optServesJSON | optLazyMultipart | optReduceMemory | optNoHeaderNormalizing
 )
 
 var optNames = []struct {
 	f flavor
 	n string
-}{{optValidator, "validator"}, {optImmutable, "immutable"}, {optStream, "stream-body"}, {optCodecs, "explicit-codecs"}, {optNeighbours, "neighbour-custom-binders"}, {optServesJSON, "custom-binder-serves-json"}}
+}{{optValidator, "validator"}, {optImmutable, "immutable"}, {optStream, "stream-body"}, {optCodecs, "explicit-codecs"}, {optNeighbours, "neighbour-custom-binders"}, {optServesJSON, "custom-binder-serves-json"},
+	{optLazyMultipart, "multipart-parsed-lazily"}, {optReduceMemory, "reduce-memory-usage"}, {optNoHeaderNormalizing, "no-header-normalizing"}}
 
 func (f flavor) String() string {
 	if f == flvPlain {
@@ -101,6 +105,15 @@ func (f flavor) apply(st *station, cfg *fiber.Config) {
 	}
 	if f&optStream != 0 {
 		cfg.StreamRequestBody = true
+	}
+	if f&optLazyMultipart != 0 {
+		cfg.DisablePreParseMultipartForm = true // the form is parsed when the binder asks for it, not by the server
+	}
+	if f&optReduceMemory != 0 {
+		cfg.ReduceMemoryUsage = true
+	}
+	if f&optNoHeaderNormalizing != 0 {
+		cfg.DisableHeaderNormalizing = true
 	}
 	if f&optCodecs != 0 {
 		cfg.JSONDecoder = json.Unmarshal
